@@ -447,14 +447,22 @@ class Pipeline:
             again = {}
             for t, i, cls in v2["bad"]:
                 again.setdefault((in2[t]["sc"], cls), (t, i))
+            unreproduced = []
             for s, cls in confirm:
                 if (s["id"], cls) not in again:
-                    raise Infra(f"flagged scenario did not reproduce when run alone ({cls}): {json.dumps(s)[:600]}")
+                    # e.g. a schedule-dependent symptom: not reported as a violation; infrastructure trouble
+                    # only if nothing at all reproduces
+                    unreproduced.append((s, cls))
+                    continue
                 t2, i2 = again[(s["id"], cls)]
                 e = [e for e in events_of(tp2, t2) if e["i"] == i2][0]
                 what = self.describe(s, e) + " event=" + json.dumps({k: v for k, v in e.items() if k not in ("t",)})[:400]
                 out.flag(cls, what, {"property": self.prop, "scenario": s, "seed": seed, "class": cls},
                          f"{cls.replace('@', '_').replace('/', '_')}-{s['orig']}-{s['id']}")
+            for s, cls in unreproduced:
+                log(f"[{self.prop}] flagged but not reproduced when run alone ({cls}): {json.dumps(s)[:300]}")
+            if unreproduced and len(unreproduced) == len(confirm):
+                raise Infra(f"none of the {len(confirm)} flagged scenarios reproduced when run alone")
         return out, verdict, vr, tp
 
     def replay(self, path, seed):
